@@ -46,7 +46,7 @@ fn drive(dut: Dut, seed: u64, rep: &mut Report) -> Option<(String, String)> {
 }
 
 fn catalogue_with_specials(opts: &Opts, rep: &mut Report, rng: &mut Rng) {
-    let per = opts.budget(16 * 10, 16 * 400);
+    let per = opts.budget(16 * 60, 16 * 2500);
     SPECIALS.store(true, Ordering::SeqCst);
     for e in ENTRIES {
         for _ in 0..per {
@@ -78,7 +78,7 @@ fn dut_bytes_in<B: Block + 'static>(name: &str, b: B, inp: CopyIn<u8>, outs: Vec
 }
 
 fn arbitrary_bytes(opts: &Opts, rep: &mut Report, rng: &mut Rng) {
-    let n = opts.budget(16 * 30, 16 * 1500);
+    let n = opts.budget(16 * 300, 16 * 15000);
     for k in 0..n {
         let seed = rng.next();
         let mut r = Rng::new(seed);
@@ -213,7 +213,7 @@ fn sigmf_inputs(opts: &Opts, rep: &mut Report, rng: &mut Rng) {
         r#"{"global":{"core:datatype":"rf32_le","core:version":"1.1.0"},"captures":[{"core:sample_start":0}],"annotations":null}"#.into(),
     ];
     let good_meta = r#"{"global":{"core:datatype":"rf32_le","core:version":"1.1.0"},"captures":[{"core:sample_start":0}],"annotations":[]}"#;
-    let n = opts.budget(16 * 12, 16 * 400);
+    let n = opts.budget(16 * 120, 16 * 4000);
     for k in 0..n {
         let seed = rng.next();
         let mut r = Rng::new(seed);
